@@ -810,5 +810,176 @@ Proof.
     apply (step_term i j c a b fa fb psq1 psq2 s L G1 G2); try assumption; rewrite ?Ka, ?Kb; try reflexivity; exact E.
 Qed.
 
+
+Lemma step_unwrap i j c y fa fb psq1 psq2 s :
+  S fa + fb <= n -> unit_kid g2 j = Some y -> pin_any R i y = true ->
+  (negb c || efree g1 EDEPTH i)%bool = true ->
+  orel i j c s (P1 (S fa) i psq1 s) (P2 (S fb) j psq2 s).
+Proof.
+  intros L U H Hc. unfold unit_kid in U. destruct (seq_kids g2 j) as [[|y' [|? ?]]|] eqn:SK; try discriminate.
+  inversion U; subst y'. destruct (seq_kids_node g2 j [y] SK) as (nd & G & K & Pl & Su & Ki).
+  pose proof (seq_node_cases g2 input orc fb j nd psq2 s G K Pl Su) as C. rewrite Ki in C. cbn [seq_loop] in C.
+  pose proof (kid_any (S fa) fb i y L H psq1 true s) as O.
+  destruct O as [O|[O|O]]; [left; exact O | rewrite O in C; right; left; exact C |].
+  destruct (P1 (S fa) i psq1 s) as [r1 s1|s1|w1], (P2 fb y true s) as [r2 s2|s2|w2]; try contradiction.
+  - destruct O as (E & V & N1 & N2). subst s2. destruct V as (Gd1 & Gd2 & T & _). right; right.
+    destruct (truthy r2) eqn:T2; cbn [app] in C; rewrite C.
+    + assert (TT : tt (post j nd (RList [r2]))).
+      { apply post_list_tt; [exact Su | apply accok1; split; [exact T2 | apply Gd2; exact T2] | discriminate]. }
+      split; [reflexivity|]. split.
+      * split; [exact Gd1|]. split; [apply tt_good; exact TT|]. split; [destruct TT; congruence|].
+        intros _. rewrite (tt_not_none r1 T), (tt_not_none _ (proj1 TT)). reflexivity.
+      * split; [exact N1 | intros; apply fnn_of_tt; exact TT].
+    + split; [reflexivity|]. split.
+      * split; [exact Gd1|]. split; [apply good_falsy; reflexivity|]. split; [exact T|].
+        intro Ec. subst c. cbn [negb orb] in Hc. rewrite (N1 EDEPTH Hc T). reflexivity.
+      * split; [exact N1 | intros; apply fnn_none].
+  - rewrite C. destruct O as (E & Q1 & Q2). right; right.
+    split; [apply eqx_set_pos_r; apply eqx_set_pos_r; exact E|]. split; [exact Q1 | intros _; apply pos_set_pos].
+  - rewrite C. right; right. exact I.
+Qed.
+
+Lemma step fa fb : fa + fb <= S n -> sim fa fb.
+Proof.
+  intros L i j c HIn psq1 psq2 s. destruct (HR _ HIn) as [Hl|Hs]; [|apply Hs].
+  destruct fa as [|fa]; [left; reflexivity|]. destruct fb as [|fb]; [right; left; reflexivity|].
+  unfold local_ok in Hl. destruct (get_node g1 i) as [a|] eqn:G1; [|discriminate].
+  destruct (get_node g2 j) as [b|] eqn:G2; [|discriminate].
+  apply orb_true_iff in Hl as [Hl|Hl].
+  - apply (step_struct i j c a b); try assumption. lia.
+  - destruct (unit_kid g2 j) as [y|] eqn:U; [|discriminate]. apply andb_true_iff in Hl as [H1 H2].
+    apply (step_unwrap i j c y); try assumption. lia.
+Qed.
+
 End Step.
+
+Lemma sim_all n : forall fa fb, fa + fb <= n -> sim fa fb.
+Proof.
+  induction n as [|n IHn]; intros fa fb L.
+  - assert (fa = 0) by lia. subst. intros i j c _ psq1 psq2 s. left. reflexivity.
+  - apply (step n IHn). exact L.
+Qed.
+
+(* outcomes of whole runs *)
+Definition outcome_rel (o1 o2 : outcome) : Prop :=
+  o1 = Aborted 0 \/ o2 = Aborted 0 \/
+  match o1, o2 with
+  | Parsed _, Parsed _ => True
+  | SyntaxErr p, SyntaxErr q => p = q
+  | Aborted _, Aborted _ => True
+  | _, _ => False
+  end.
+
+Lemma run_rel cfg f1 f2 : outcome_rel (run g1 cfg orc false f1 input) (run g2 cfg orc false f2 input).
+Proof.
+  unfold run. pose proof HF as F. unfold frame_ok in F. apply andb_true_iff in F as [F _].
+  apply pin_any_In in F as [c F].
+  pose proof (sim_all (f1 + f2) f1 f2 (le_n _) _ _ _ F false false (init_st cfg)) as O.
+  destruct O as [O|[O|O]]; [rewrite O; left; reflexivity | rewrite O; right; left; reflexivity |].
+  destruct (P1 f1 (g_top g1) false (init_st cfg)) as [r1 s1|s1|w1],
+           (P2 f2 (g_top g2) false (init_st cfg)) as [r2 s2|s2|w2]; try contradiction.
+  - right; right. exact I.
+  - right; right. destruct O as (E & _). unfold nm_pos. rewrite (eqx_nm _ _ E). reflexivity.
+  - right; right. exact I.
+Qed.
+
 End Sound.
+
+(* ---------------------------------------------------------------- the checker *)
+Lemma filter_nil {A} (f : A -> bool) l : filter f l = [] -> forall x, In x l -> f x = false.
+Proof.
+  induction l as [|y l IH]; intros H x HIn; [contradiction|]. simpl in H.
+  destruct (f y) eqn:E; [discriminate|]. destruct HIn as [->|HIn]; [exact E | apply IH; assumption].
+Qed.
+
+Theorem rel_sound g1 g2 R input orc :
+  frame_ok g1 g2 R = true ->
+  (forall p, In p R -> local_ok g1 g2 R p = true \/ sem_ok g1 g2 input orc p) ->
+  forall cfg f1 f2, outcome_rel (run g1 cfg orc false f1 input) (run g2 cfg orc false f2 input).
+Proof. intros HF HR cfg f1 f2. apply (run_rel g1 g2 R input orc HR HF). Qed.
+
+Theorem diffs_sound seeds g1 g2 :
+  peg_equiv_diffs seeds g1 g2 = [] ->
+  forall input orc cfg f1 f2, outcome_rel (run g1 cfg orc false f1 input) (run g2 cfg orc false f2 input).
+Proof.
+  unfold peg_equiv_diffs. intros H input orc cfg f1 f2.
+  apply app_eq_nil in H as [H1 H2].
+  apply (rel_sound g1 g2 (reach_all g1 g2 seeds)).
+  - destruct (frame_ok g1 g2 (reach_all g1 g2 seeds)); [reflexivity | discriminate].
+  - intros p HIn. left. pose proof (filter_nil _ _ H2 p HIn) as E. cbv beta in E. destruct (local_ok g1 g2 (reach_all g1 g2 seeds) p); [reflexivity | simpl in E; discriminate].
+Qed.
+
+(* acceptance and error position, when neither run ran out of fuel *)
+Corollary diffs_sound_accepts seeds g1 g2 :
+  peg_equiv_diffs seeds g1 g2 = [] ->
+  forall input orc cfg f1 f2,
+  run g1 cfg orc false f1 input <> Aborted 0 -> run g2 cfg orc false f2 input <> Aborted 0 ->
+  accepts (run g1 cfg orc false f1 input) = accepts (run g2 cfg orc false f2 input)
+  /\ (forall p, run g1 cfg orc false f1 input = SyntaxErr p <-> run g2 cfg orc false f2 input = SyntaxErr p).
+Proof.
+  intros H input orc cfg f1 f2 A1 A2. pose proof (diffs_sound seeds g1 g2 H input orc cfg f1 f2) as O.
+  destruct O as [O|[O|O]]; [contradiction | contradiction |].
+  destruct (run g1 cfg orc false f1 input), (run g2 cfg orc false f2 input); try contradiction.
+  - split; [reflexivity | intro p; split; discriminate].
+  - subst. split; [reflexivity | intro q; split; intro E; exact E].
+  - split; [reflexivity | intro p; split; discriminate].
+Qed.
+
+(* ---------------------------------------------------------------- the textX instance *)
+From TxV Require Import Gen.SrcLangPeg Gen.SrcTxPeg.
+
+Definition textx_R : list (nat * nat * bool) :=
+  reach_all lang_grammar tx_grammar (seeds_of lang_labels tx_labels textx_seeds).
+
+Definition accepted_pair (p : nat * nat * bool) : bool :=
+  match p with
+  | (i, j, _) => existsb (lp_eqb (label_of lang_labels i, label_of tx_labels j)) textx_accepted_diffs
+  end.
+
+(* every pair of the traversal passes the local check or is an accepted difference *)
+Lemma textx_pairs :
+  frame_ok lang_grammar tx_grammar textx_R = true /\
+  forallb (fun p => local_ok lang_grammar tx_grammar textx_R p || accepted_pair p) textx_R = true.
+Proof. vm_compute. split; reflexivity. Qed.
+
+Theorem textx_modulo_accepted input orc :
+  (forall p, In p textx_R -> accepted_pair p = true -> sem_ok lang_grammar tx_grammar input orc p) ->
+  forall cfg f1 f2,
+  outcome_rel (run lang_grammar cfg orc false f1 input) (run tx_grammar cfg orc false f2 input).
+Proof.
+  intros H cfg f1 f2. destruct textx_pairs as [F A].
+  apply (rel_sound lang_grammar tx_grammar textx_R input orc F).
+  intros p HIn. rewrite forallb_forall in A. specialize (A p HIn). apply orb_true_iff in A as [A|A].
+  - left. exact A.
+  - right. apply H; assumption.
+Qed.
+
+(* ---------------------------------------------------------------- small witnesses *)
+(* Model: 'a' 'x'* ;  without and with textX-style wrappers around the two parts *)
+Definition mk (k : kind) (kids : list nat) (root : bool) : node := mkNode k kids None false [] root false None None.
+Definition g_plain : grammar :=
+  mkGrammar [mk KSeq [1; 5] true; mk KSeq [2; 3] true; mk (KStr [97]%N None) [] false; mk KStar [4] false;
+             mk (KStr [120]%N None) [] false; mk KEOF [] false] 0 None.
+Definition g_wrapped : grammar :=
+  mkGrammar [mk KSeq [1; 7] true; mk KSeq [2; 3] true; mk KSeq [4] true; mk KStar [5] true;
+             mk (KStr [97]%N None) [] false; mk KSeq [6] true; mk (KStr [120]%N None) [] false; mk KEOF [] false] 0 None.
+(* the same with 'y' instead of 'x' *)
+Definition g_other : grammar :=
+  mkGrammar [mk KSeq [1; 7] true; mk KSeq [2; 3] true; mk KSeq [4] true; mk KStar [5] true;
+             mk (KStr [97]%N None) [] false; mk KSeq [6] true; mk (KStr [121]%N None) [] false; mk KEOF [] false] 0 None.
+Definition cfg0 : config := mkConfig true [9; 10; 13; 32]%N.
+Definition no_orc (o p : nat) : option nat := None.
+
+Lemma witness_equal :
+  peg_equiv_diffs [] g_plain g_wrapped = [] /\
+  accepts (run g_plain cfg0 no_orc false 50 [97; 32; 120; 120]%N) = true /\
+  accepts (run g_wrapped cfg0 no_orc false 50 [97; 32; 120; 120]%N) = true /\
+  accepts (run g_plain cfg0 no_orc false 50 [97; 121]%N) = false /\
+  accepts (run g_wrapped cfg0 no_orc false 50 [97; 121]%N) = false.
+Proof. vm_compute. repeat split. Qed.
+
+Lemma witness_different :
+  peg_equiv_diffs [] g_plain g_other <> [] /\
+  accepts (run g_plain cfg0 no_orc false 50 [97; 121]%N) = false /\
+  accepts (run g_other cfg0 no_orc false 50 [97; 121]%N) = true.
+Proof. vm_compute. repeat split. discriminate. Qed.
